@@ -119,6 +119,12 @@ CLAIMED["C10"] = dict(
    text="Generated histories over Live, Progress and Status (transient, vertical_overflow, terminal sizes, frames that grow/shrink/vanish/exceed the screen, restarts, redirected stdout) are executed; after every operation the bytes written so far are replayed on a terminal model and must show exactly the printed rows followed by the frame as of the last draw, with the cursor never above the live region and visible after stop. Fault runs make the displayed renderable raise at a generated render index (one-shot/persistent, escaping the with-block or caught by the program) or make the block body raise after j operations, and require propagation plus restoration of cursor, stdout/stderr, render hook and started flag.",
    note="auto_refresh off; single-width text; frames taller than the screen only with crop/ellipsis; Progress tables within the screen height; expected printed rows come from a plain twin console.",
    ref="5 C10")
+CLAIMED["C11"] = dict(
+   technique="schedule exploration with a harness-owned deterministic scheduler over real threads: exhaustive single-preemption (quick) / double-preemption (thorough) schedules of fixed programs plus Hypothesis-generated programs and schedules; per-write and screen-model oracles",
+   level="exploration",
+   text="Real threads are serialised by a scheduler that may preempt at every traced line of the console/live/progress modules, every operation of the proxied locks and every file write; under each schedule every print/log call must reach the file in exactly one write with its single-threaded text, captures must return exactly their own thread's prints and leak nothing, the record must have the file's order, no thread may deadlock or raise, and with a display the final screen (VT model) must show the printed rows in arrival order followed by the last frame. All single-preemption schedules of seven fixed programs are enumerated in every run.",
+   note="C-level calls are atomic under the GIL; auto-refresh timers are replaced by explicit refresher programs; screen mismatches under schedules that expose the hook-to-write window are the known finding F2 (exposure is read off the schedule).",
+   ref="5 C11")
 NOT_YET = {}
 props = [json.loads(l) for l in open(os.path.join(V, "properties.jsonl"))]
 checks = []
